@@ -106,6 +106,7 @@ UNIT_DRIVERS = {
     "scan_filter_back": ["transaction::cursor_enum_quick"],
     "bptree_node": ["bptree_enum_quick"],
     "history_window": ["snapshot::timetravel_enum_quick"],
+    "history_merge": ["snapshot::timetravel_enum_quick"],
     "pipeline_failure": ["commit::fault_enum"],
     "restore_protocol": ["levels::checkpoint_enum_quick"],
     "checkpoint_protocol": ["levels::checkpoint_enum_quick"],
